@@ -1,6 +1,7 @@
 package props
 
 import (
+	"bytes"
 	"encoding/json"
 	"fmt"
 	"io"
@@ -56,6 +57,11 @@ func c05Oracles(sc *zipScratch, m module.Version, files []gen.ZipFileSpec) (orac
 		return "create-ok-iff-checkfiles-ok", fmt.Sprintf("Create succeeded for module %v", m), out
 	case out.cerr == nil && out.cfErr != nil:
 		return "create-ok-iff-checkfiles-ok", fmt.Sprintf("Create succeeded although CheckFiles reports %v", out.cfErr), out
+	case out.cerr == nil:
+		// ... nor when the documented rules (independent transcription) report an error
+		if sp := zipSpecCheckFiles(files); sp.SizeErr || len(sp.Invalid) > 0 {
+			return "create-ok-iff-checkfiles-ok", fmt.Sprintf("Create succeeded although the documented rules reject the list: size error %v, invalid %v", sp.SizeErr, sp.Invalid), out
+		}
 	case out.cerr != nil && modOK && honest && out.cfErr == nil:
 		return "create-ok-iff-checkfiles-ok", fmt.Sprintf("Create failed (%v) although CheckFiles reports no error and all sizes are honest", out.cerr), out
 	}
@@ -214,6 +220,65 @@ func c05ZipSizeProbe(sc *zipScratch) string {
 	return ""
 }
 
+// c05TotalProbe: a tree of REAL data (lazily produced zeros) whose total is above MaxZipFile
+// only because of its go.mod: the other file has MaxZipFile-50 bytes, go.mod 100.  The file
+// check must report the size error and Create must fail (it then reads nothing); if Create
+// succeeds the archive (zeros compress to under a megabyte) goes through CheckZip.
+type c05ZeroFile struct {
+	path string
+	size int64
+	head []byte
+}
+
+func (f c05ZeroFile) Path() string                { return f.path }
+func (f c05ZeroFile) Lstat() (os.FileInfo, error) { return c05ZeroInfo{f}, nil }
+func (f c05ZeroFile) Open() (io.ReadCloser, error) {
+	return io.NopCloser(io.LimitReader(io.MultiReader(bytes.NewReader(f.head), c05Zeros{}), f.size)), nil
+}
+
+type c05Zeros struct{}
+
+func (c05Zeros) Read(b []byte) (int, error) {
+	for i := range b {
+		b[i] = '\n'
+	}
+	return len(b), nil
+}
+
+type c05ZeroInfo struct{ f c05ZeroFile }
+
+func (i c05ZeroInfo) Name() string       { return i.f.path }
+func (i c05ZeroInfo) Size() int64        { return i.f.size }
+func (i c05ZeroInfo) Mode() os.FileMode  { return 0o644 }
+func (i c05ZeroInfo) ModTime() time.Time { return time.Time{} }
+func (i c05ZeroInfo) IsDir() bool        { return false }
+func (i c05ZeroInfo) Sys() interface{}   { return nil }
+
+func c05TotalProbe(sc *zipScratch) string {
+	m := module.Version{Path: "example.com/m", Version: "v1.0.0"}
+	files := []modzip.File{
+		c05ZeroFile{"data.bin", modzip.MaxZipFile - 50, nil},
+		c05ZeroFile{"go.mod", 100, []byte("module example.com/m\n")},
+	}
+	_, cfErr := modzip.CheckFiles(files)
+	var buf bytes.Buffer
+	cerr := modzip.Create(&buf, m, files)
+	if cerr != nil {
+		if cfErr == nil {
+			return fmt.Sprintf("total %d bytes: CheckFiles reports no error but Create fails: %v", int64(modzip.MaxZipFile)+50, cerr)
+		}
+		return ""
+	}
+	if cfErr != nil {
+		return fmt.Sprintf("Create succeeded although CheckFiles reports %v", cfErr)
+	}
+	_, zerr, _ := zipImplCheckZip(sc, m, buf.Bytes())
+	if zerr != nil {
+		return fmt.Sprintf("files data.bin (%d bytes) and go.mod (100 bytes): Create succeeded, CheckZip rejects the archive: %v", int64(modzip.MaxZipFile)-50, zerr)
+	}
+	return fmt.Sprintf("a tree of %d bytes was accepted by CheckFiles, Create and CheckZip", int64(modzip.MaxZipFile)+50)
+}
+
 func runC05(c *hx.Ctx) {
 	r := c.Rng
 	sc := newZipScratch(c.Out)
@@ -222,12 +287,16 @@ func runC05(c *hx.Ctx) {
 		msg := c05ZipSizeProbe(sc)
 		c.Check("create-then-checkzip-ok", msg == "", "C05-zipsize", zipIn{Op: "zipsize"}, msg)
 		c.Count("zipsize-probe")
+		msg = c05TotalProbe(sc)
+		c.Check("create-then-checkzip-ok", msg == "", "", zipIn{Op: "totalsize"}, msg)
 	}
 	for i := 0; i < c.N(3500); i++ {
 		m := gen.ZipModuleVersion(r)
 		var files []gen.ZipFileSpec
 		tag := "hostile"
 		switch k := r.Intn(10); {
+		case i%20 == 1:
+			files, tag = gen.ZipSizeBoundaryList(r), "size-boundary"
 		case k < 5:
 			files, tag = gen.ValidModuleFileList(r), "well-formed"
 		case k < 7:
@@ -278,6 +347,10 @@ func replayC05(raw json.RawMessage) (bool, string) {
 		return false, err.Error()
 	}
 	sc := zipReplayScratch("C05")
+	if in.Op == "totalsize" {
+		msg := c05TotalProbe(sc)
+		return msg == "", msg
+	}
 	if in.Op == "zipsize" {
 		msg := c05ZipSizeProbe(sc)
 		return msg == "", msg
